@@ -14,6 +14,49 @@ CHECKS = {
         "Trusted: the reference model mc/models/notes.py as the reading of the documentation; streams are single-player, position-sorted, one note per cell. Which RAISE-policy orphan is reported first is not claimed.",
         "DESIGN.md 5 (C09)",
     ),
+
+    "C07": (
+        "model_checking",
+        "explicit-state exhaustive enumeration of note-data texts (cell grids, format variations, keysound rows, note pairs) decoded by the real NoteData and compared with an independent reader model",
+        "Every grid of up to 6 (quick) / 8 (thorough) cells over 0,1,2,3,M, every row of <=4 cells over all nine note characters, every rows-per-measure shape (singles, pairs, triples over 13 row counts) x 1-3 players x 108 formatting styles, all 8^4 keysound rows, 1..16 columns, and all ordered pairs of 72 notes under all comparison operators are decoded by the real code and compared with an independent reader; exhaustive within these bounds.",
+        "Trusted: mc/models/notes.py read_notedata as the reading of 'one note per non-zero cell'; texts are well-formed (no blank line inside a measure, known note characters).",
+        "DESIGN.md 5 (C07)",
+    ),
+    "C08": (
+        "model_checking",
+        "explicit-state exhaustive construction tree over position-sorted note streams (note by note) through the real NoteData.from_notes, checked in every node against an independent reader and a structure model; decode/re-encode stability on generated texts",
+        "Every stream of up to 3-4 notes over 3 players x 11 beats (tick-aligned, thirds, fifths, sevenths, several measures) x 1-3 columns, all type/keysound variants on 1-2 note streams, 1..16 columns, the empty stream, and decode/re-encode of generated and corpus texts; in every node: notes read back identical, column count, canonical structure (player sections, measures, 4 x LCM rows), stability.",
+        "Trusted: mc/models/notes.py (independent reader, expected_structure). Streams satisfy from_notes' documented preconditions.",
+        "DESIGN.md 5 (C08)",
+    ),
+    "C10": (
+        "model_checking",
+        "explicit-state exhaustive construction tree over note streams x the full option product through the real group_notes + ungroup_notes, compared with the model's expected stream; exhaustive hand-built grouped sequences",
+        "Every stream on small grids (incl. keysounded heads) x include sets x 3 same-beat modes x join off/on x 3x3 orphan policies x 3 ungroup policies must come back as the included notes minus exactly the orphans the model says were dropped; every hand-built sequence of one or two joined holds plus <=2 plain notes on a 2x4 grid x groupings x policies must raise / pass / drop as documented.",
+        "Trusted: mc/models/notes.py join_model (validated against group_notes by C09). Tails carry no keysound index.",
+        "DESIGN.md 5 (C10)",
+    ),
+    "C11": (
+        "model_checking",
+        "explicit-state exhaustive construction tree over timing-event sets on small beat grids through the real TimingEngine, every state compared with an exact rational timeline model under every EventTag; metamorphic transitions (offset shift, redundant BPM insertion)",
+        "All sets of up to 3 (quick) / 4 (thorough) events (redundant/different BPM change, stop, delay, warp of 1-3 steps) on 4-point coarse and fine (adjacent-tick) grids x 3 offsets, dyadic and decimal value families: time_at at ~40 probe beats x 7 tags within 1e-9 of the exact model, monotone in (beat, tag), bpm_at exact, offset shift and redundant-BPM insertion invariance; corpus timing data.",
+        "Trusted: mc/models/timeline.py as the specification; domain as stated in the property (first BPM at 0, positive values, sorted tick-aligned beats).",
+        "DESIGN.md 5 (C11)",
+    ),
+    "C12": (
+        "model_checking",
+        "explicit-state exhaustive construction tree over timing-event sets through the real TimingEngine.beat_at at all boundary, in-pause and in-between times under every tag, against sup/inf definitions on the exact rational timeline; independence transitions (redundant BPM changes)",
+        "Same event-set space as C11 plus a shifted grid; asked times = the engine's own time_at of every probe beat and tag, 3-5 times inside every pause, points between event times: round trip on tick-aligned unskipped beats, paused beat inside pauses, WARP/default boundary answers (where float time is exact), half-tick nearness, monotonicity per tag, independence from 1..3 added redundant BPM changes.",
+        "Trusted: mc/models/timeline.py (B_default = sup{b: arrive(b)<=t}, B_warp = inf{b: depart(b)>=t}); exact rounding ties and float boundary times are treated leniently as the property allows.",
+        "DESIGN.md 5 (C12)",
+    ),
+    "C13": (
+        "model_checking",
+        "explicit-state exhaustive construction tree over timing-event sets; hittable() on every probe tick and time_notes over all note types x players x keysounds x grid rows x 3 options through the real code, against the timeline and notes models",
+        "Same event-set space as C11: hittable on every tick around the events equals 'in the warp union and no stop/delay on the beat'; for every timeline with a warp, time_notes of 9-type x 8-row x 3-player texts (keysounded on alternating cells) under the three UnhittableNotes options equals the model's list (order, times, notes unchanged except type for fakes); corpus charts.",
+        "Trusted: mc/models/timeline.py and mc/models/notes.py.",
+        "DESIGN.md 5 (C13)",
+    ),
 }
 
 PLANNED = "check not built yet (work in progress this round; design in DESIGN.md section 5)"
